@@ -144,7 +144,7 @@ int cp_zss_ver(const g2_t s, const uint8_t *msg, size_t len, int hash,
 
 		pc_map(e, g, s);
 
-		if (gt_cmp(e, z) == RLC_EQ) {
+		if (gt_cmp(e, z) == RLC_EQ && g1_is_valid(q) && g2_is_valid(s)) {
 			result = 1;
 		}
 	}
